@@ -527,6 +527,7 @@ func runVer(c *engine.Ctx, prop string) {
 		depth = 6
 	}
 	name := prop + "/mem"
+	c.SpecBudget = c.Budget() / 2
 	engine.RunSeq(c, engine.SeqSpec{Name: name, World: "mem", MaxDepth: depth,
 		New: func() (engine.Sys, error) { return newVerSys(prop, keys, bodies, maxEnt) }})
 	c.Bounds[name] = map[string]interface{}{"keys": keys, "bodies": bodies, "history_depth": depth, "max_entries_per_key": maxEnt}
